@@ -7,7 +7,7 @@ CONSTANTS
   MaxAtoms = 1
   MaxParts = 2
   Prefixes2 = {"", "u", "r", "b", "rb"}
-  Quotes2 = {2, 4}
+  Quotes2 = {2}
   LongReps = {}
   BigReps = {}
   Dump = TRUE
